@@ -92,7 +92,18 @@ def evaluate(prop, repo=None, tier="quick"):
     prog = facts.load(repo)
     ctx = Ctx(prog, prop, tier)
     mod = importlib.import_module("engine.kmtlint.rules.%s" % prop.lower())
-    mod.run(ctx)
+    try:
+        mod.run(ctx)
+    except Exception as e:
+        # The rules never raise on the tree they were confirmed on.  An exception therefore means the
+        # analysed code no longer has the shape a rule relies on: fail closed, naming the rule function.
+        tb = traceback.extract_tb(e.__traceback__)
+        where = next((f for f in reversed(tb) if "/rules/" in f.filename), tb[-1])
+        ctx.fail("%s.shape" % prop, "%s:%s" % (os.path.basename(where.filename)[:-3], where.name),
+                 "rule `%s` (%s:%d) could not be evaluated on this tree (%s: %s): the code it analyses no longer has "
+                 "the confirmed shape; the clauses it decides are undecided — re-confirm the rule instance"
+                 % (where.name, os.path.basename(where.filename), where.lineno, type(e).__name__, str(e)[:200]))
+        ctx.notes.append("traceback: " + "".join(traceback.format_exception_only(type(e), e)).strip())
     return ctx, mod
 
 
